@@ -537,7 +537,9 @@ def run(ctx):
                     X.Decls(fold(X.lex(src)))
                     n += evaluate(ctx, tools, model, src, sets, label="corpus/" + f)
                 except X.DeclError:      # declarations outside the Lean model: normalised declaration AST oracle
-                    n += evaluate_ext(ctx, tools, model, src, sets, label="corpus/" + f)
+                    cls = {X.literal_class(t) for t in X.lex(src)} - {None}
+                    n += evaluate_ext(ctx, tools, model, src, sets, label="corpus/" + f,
+                                      key=("class:" + cls.pop()) if len(cls) == 1 else None)
                 ctx.hist("inputs", "corpus")
         # 2. generated schemas
         feats = {}
@@ -580,10 +582,15 @@ def run(ctx):
                 groups.setdefault((kind, X.literal_class(tok)), []).append(l)
         gi = 0
         for (kind, cls), lits in sorted(groups.items(), key=lambda kv: (kv[0][0], str(kv[0][1]))):
-            for c0 in range(0, len(lits), 120):
+            # representable literals: many per schema; literals of a finding class: one schema each (a tree that rejects
+            # out-of-range literals at parse time takes that schema out of the property's domain, the others stay in)
+            step = 120 if cls is None else 1
+            if cls is not None and quick:
+                lits = lits[::max(1, len(lits) // 6)]
+            for c0 in range(0, len(lits), step):
                 gi += 1
-                src = X.literal_schema(f"lit{gi}", kind, lits[c0:c0 + 120])
-                ctx.hist("inputs", f"numeric literal grid: {kind} {cls or 'representable'}", len(lits[c0:c0 + 120]))
+                src = X.literal_schema(f"lit{gi}", kind, lits[c0:c0 + step])
+                ctx.hist("inputs", f"numeric literal grid: {kind} {cls or 'representable'}", len(lits[c0:c0 + step]))
                 evaluate_ext(ctx, tools, model, src, [(80, False, False)] + ([] if quick else [(10, False, False), (99999, True, True)]),
                              label=f"literals#{gi}", key=("class:" + cls) if cls else None)
         # grammar coverage: every non-terminal of expparse.y is mapped to a generator feature (or excluded with a reason);
